@@ -46,6 +46,7 @@ class Sub:
         self.events = []  # [(payload, plan)]
         self.refused = None
         self.arg_failure = False
+        self.root_excluded = False
         self.responses = []
         self.exc = None
         self.rt = None
@@ -76,6 +77,21 @@ def run_one(seed, preset=None, tier="quick", want_case=False):
                 from simv.model.document import Field, Operation
                 doc.operations()[0].name = doc.operations()[0].name or "TheSub"
                 doc.defs.insert(0, Operation("query", "LeadingQuery", [], [Field("__typename")]))
+            xt = tape.sub("rootskip")
+            if xt.chance(7):
+                # every selection of the root field is excluded by @skip / @include: nothing is left to subscribe to
+                from simv.model.schema import DirUse
+                sub_op = next(o for o in doc.operations() if o.op == "subscription")
+                lit = ("skip", True) if xt.chance(50) else ("include", False)
+
+                def exclude(sels):
+                    for sel in sels:
+                        if sel.kind == "field":
+                            sel.directives = list(sel.directives) + [DirUse(lit[0], [("if", ("bool", lit[1]))])]
+                        elif sel.kind == "inline":
+                            exclude(sel.sels)
+                exclude(sub_op.sels)
+                doc.root_excluded = True
             text0 = print_document(doc, tape.draw("doc%d" % i, 3))
         s.doc = doc
         s.text = s.text0 = text0
@@ -98,14 +114,15 @@ def run_one(seed, preset=None, tier="quick", want_case=False):
             probe = RefExec(schema, doc, Tape(seed, preset), "proben%d" % i).run(s.op_name, nv)
             if not probe.refused:
                 s.variables = nv
-        if not s.refused:
+        s.root_excluded = bool(getattr(doc, "root_excluded", False))
+        if not s.refused and not s.root_excluded:
             # whatever the variables, the root field's arguments may be impossible to coerce (e.g. a null default nested
             # in a list of non-null items): then no source stream can be created
             probe = RefExec(schema, doc, Tape(seed, preset), "probea%d" % i).run(s.op_name, s.variables)
             s.arg_failure = (not probe.refused) and any(len(e.path) == 1 and str(e.kind).startswith("argument:") for e in probe.errors)
         if ot.chance(40):
             s.initial = {"_decoy_initial_value": i}
-        if not s.refused and not s.arg_failure:
+        if not s.refused and not s.arg_failure and not s.root_excluded:
             for k in range(ot.rint(0, 4 if tier == "quick" else 9)):
                 none_root = ot.chance(10)
                 stream = "data%d_%d" % (i, k)
@@ -197,6 +214,14 @@ def run_one(seed, preset=None, tier="quick", want_case=False):
                 for resp in s.responses:
                     viol.extend(check_envelope(resp, s.text))
                 started = [e for e in out.events if e[1] == "source_start" and e[2] == s.rid]
+                if s.root_excluded and not s.refused:
+                    r0 = s.responses[0] if s.responses else None
+                    if not (len(s.responses) == 1 and isinstance(r0, dict) and r0.get("errors") and not r0.get("data")):
+                        viol.append(V("excluded_root_field_response", "%s: the root field is excluded by @skip / @include; yielded %d responses: %r" % (
+                            lab, len(s.responses), s.responses[:2])))
+                    if started:
+                        viol.append(V("source_started_without_root_field", "%s: source started although the root field is excluded" % lab))
+                    continue
                 if s.arg_failure:
                     # the root field's arguments cannot be coerced: no source stream can be created; the
                     # failure is answered (one response carrying the field error), never raised
@@ -291,6 +316,7 @@ def run_one(seed, preset=None, tier="quick", want_case=False):
                    "event_nulls_whole_data": int(any(plan.data is None and not plan.refused for s in subs for _, plan in s.events)),
                    "two_streams_interleaved": int(overlap >= 2),
                    "root_field_argument_coercion_fails": int(any(s.arg_failure for s in subs)),
+                   "root_field_excluded_by_skip_or_include": int(any(s.root_excluded and not s.refused for s in subs)),
                    "subscription_root_repeated": int(any(getattr(s.doc, "probes", {}).get("subscription_root_repeated") for s in subs))}
     if want_case or viol:
         r["case"] = {"sdl": sdl, "engine_config": cfg, "scheduler": sch,
